@@ -223,6 +223,11 @@ pub open spec fn sv_post(o: LView, n: LView, ctx: Context, inode: u64, r: Result
            if rs.len() == 0 { n == o && r is Err && r->Err_0.os_code() is None }
            else { n == asked_one(o, *rs[0].layer, 5, rs[0].inode, None::<u64>) && r == (*rs[0].layer).s_statfs(ctx, rs[0].inode) } }
 }
+// what C10 can ask of STATFS (it speaks of the visible TREE and of the lower layers never changing, not of file-system statistics): the request changes
+// nothing in the view and asks the layers for at most ONE thing, a statfs.  WHICH layer answers (`sv_post` above: the node's own topmost layer; the
+// kernel's overlayfs reports the upper file system) is pinned behaviour under a `pin.` tag, which belongs to no property: a change of it is recorded in the
+// evidence (obligations failing for no claimed property) and is not an alarm.
+pub open spec fn sv_c10(o: LView, n: LView) -> bool { n == o || exists|l: LayerObj, i: u64| n == #[trigger] asked_one(o, l, 5, i, None::<u64>) }
 // ---- get_data: which layer, real inode and real handle a handle-based request goes to
 // what get_data takes as read-only: none of O_APPEND (0o2000), O_CREAT (0o100), O_TRUNC (0o1000), O_RDWR (2), O_WRONLY (1); such a word is harmless (sp_open_harmless)
 pub open spec fn sp_gd_readonly(flags: u32) -> bool { flags & 0o3103u32 == 0 }
@@ -555,7 +560,8 @@ def unit(root='/repo'):
                  ensures=['%s == %s // [C10.read.find_real_inode.frame]' % (H1, H0),
                           'fri_post(%s, inode, r) // the live node of that number: the layer and the number of its FIRST real inode; ENOENT for a number the live table lacks [C10.read.find_real_inode.topmost]' % H0]))
     dsv = tok(Fn(OVL, OF, 'do_statvfs', props=P, canary=True, body_resub=[O.OTHERSTR],
-                 ensures=['sv_post(%s, %s, *ctx, inode, r) // what the code does: the live table only; ONE statfs call, to the layer of the node\'s FIRST real inode with that inode; its answer unchanged; nothing else changes [C10.read.do_statvfs.one_layer]' % (H0, H1)]),
+                 ensures=['sv_c10(%s, %s) // nothing in the view changes, at most one layer is asked, for a statfs [C10.read.do_statvfs.frame]' % (H0, H1),
+                          'sv_post(%s, %s, *ctx, inode, r) // what the code does (pinned, no property): the live table only; ONE statfs call, to the layer of the node\'s FIRST real inode with that inode; its answer unchanged [pin.read.do_statvfs.one_layer]' % (H0, H1)]),
               extra=['first', 'last'])
     items.append(Group('impl OverlayFs {', [fri, dsv]))
 
@@ -589,7 +595,8 @@ def unit(root='/repo'):
     h_getxattr = fwd('getxattr', LOGGED['getxattr'], True, 'l.s_getxattr(*ctx, i, name@, size)')
     h_listxattr = fwd('listxattr', LOGGED['listxattr'], True, 'l.s_listxattr(*ctx, i, size)')
     h_statfs = tok(Fn(OVLS, FSI, 'statfs', props=P, canary=True,
-                      ensures=['sv_post(%s, %s, *ctx, inode, r) // STATFS = do_statvfs [C10.read.statfs.same]' % (H0, H1)]))
+                      ensures=['sv_c10(%s, %s) // [C10.read.statfs.frame]' % (H0, H1),
+                               'sv_post(%s, %s, *ctx, inode, r) // STATFS = do_statvfs (pinned, no property) [pin.read.statfs.same]' % (H0, H1)]))
     items.append(Group('impl OverlayFs {', [h_readlink, h_access, h_getxattr, h_listxattr, h_statfs]))
 
     # ------------------------------------------------------------------------------------------------ read / write
